@@ -92,7 +92,7 @@ class C16Check:
 
     def floors(self, tier):
         return scaled_floors("C16", ["C16.member_help_ok", "C16.handshake_ok", "C16.private_rejected", "C16.command_set_exact", "C16.socket_clients_ok",
-                                     "C19.handshake_while_other_pending"], tier, 25)
+                                     "C19.handshake_while_other_pending", "C16.member_runs_ok", "C16.member_runs_ok.static", "C16.served_again"], tier, 25)
 
     def timeout(self, tier):
         return 900 if tier == "quick" else 7200
@@ -206,7 +206,8 @@ class C17Check:
         return [("random", 600 if tier == "quick" else 20000)]
 
     def floors(self, tier):
-        return scaled_floors("C17", ["C17.state_ok", "C17.reply_ok.ret", "C17.reply_ok.exc", "C17.options.2", "C17.noise_lines"], tier, 33)
+        return scaled_floors("C17", ["C17.state_ok", "C17.reply_ok.ret", "C17.reply_ok.exc", "C17.options.2", "C17.noise_lines", "C17.decoy_lines",
+                                     "C17.lazy_path.preimported_0", "C17.lazy_path.preimported_2", "C17.lazy_path.preimported_4", "C17.cmd.ratio", "C17.cmd.lock_calls"], tier, 33)
 
     def timeout(self, tier):
         return 900 if tier == "quick" else 7200
@@ -265,7 +266,8 @@ class C19Check:
     def floors(self, tier):
         return scaled_floors("C19", ["C19.handshakes", "C19.probe_ok", "C19.stopped", "C19.cli_ok", "C19.started.tcp", "C19.started.unix", "C19.disconnect.abort",
                                      "C19.disconnect.eof", "C19.disconnect.close", "C19.stop_with_clients.1", "C19.connect_after_stop_refused",
-                                     "C19.probe_ok_while_parked", "C19.handshake_while_other_pending", "C19.stale_socket_file", "C19.blank_probe_clients"], tier, 18)
+                                     "C19.probe_ok_while_parked", "C19.handshake_while_other_pending", "C19.stale_socket_file", "C19.blank_probe_clients",
+                                     "C19.restart.earlier_task_pending", "C19.restart.earlier_task_done", "C19.earlier_period_client_leaves_while_serving_again"], tier, 12)
 
     def timeout(self, tier):
         return 900 if tier == "quick" else 7200
